@@ -92,7 +92,14 @@ def gen_plan(r):
       it = {'predicates': list(members), 'repetitions': rep, 'stop_signal': sig}
       if mode:
         it['mode'] = mode
-      iterations['it%d_%s' % (gi, members[0])] = it
+      name = 'it%d_%s' % (gi, members[0])
+      if iterations and r.random() < 0.15:
+        # compiled iteration names are predicate names, which may end like the names the executor
+        # gives to the halves of another iteration
+        name = r.choice(sorted(iterations)) + r.choice(['_upper', '_lower'])
+        if name in iterations:
+          name = 'it%d_%s' % (gi, members[0])
+      iterations[name] = it
       earlier.extend(members)
   r.shuffle(actions)
   for a in actions:
